@@ -310,6 +310,9 @@ def rule_line_positions(chk, prog, tier):
                 src = pre + head + tail
                 run = pp_concrete(prog, src)
                 key = 'line-after:%r' % src
+                if run.outcome == 'unsupported' and ' on UNINIT' in str(run.detail):
+                    # the interpreter met an operation on storage the compiler never wrote: the position it reports is whatever malloc returned
+                    r.instance(False, key, 'scan.c', 'a location field is used before it is written: %s' % run.detail); continue
                 if run.outcome == 'unsupported':
                     raise AnalysisBroken('%s: %s' % (key, run.detail))
                 if run.outcome != 'return':
@@ -326,6 +329,8 @@ def rule_line_positions(chk, prog, tier):
                        ('#define G(a) [a]\n#define H(b) G(b) b\n\n H(k);\n', {'k': [(4, 4), (4, 4)]}), ('#define N 1\n#define F(a) a\n\nF(  q  N);\n', {'q': [(4, 5)]})):
         run = pp_concrete(prog, src)
         key = 'macro-arg-location:%r' % src
+        if run.outcome == 'unsupported' and ' on UNINIT' in str(run.detail):
+            r.instance(False, key, 'scan.c', 'a location field is used before it is written: %s' % run.detail); continue
         if run.outcome == 'unsupported': raise AnalysisBroken('%s: %s' % (key, run.detail))
         if run.outcome != 'return':
             r.instance(False, key, 'pp.c', 'valid input rejected: %s %s' % (run.outcome, run.detail)); continue
@@ -340,6 +345,8 @@ def rule_line_positions(chk, prog, tier):
                       ('#define P(a, b) a #b\n\nP(x,\n  y);\n', 4), ('#define Q(a, b, c) #c #b\nQ(1,\n 2,\n\n 3)\n', (5, 3)), ('#define W(a, ...) a #__VA_ARGS__\n\nW(k,\n\n m, n)\n', 5)):
         run = pp_concrete(prog, src)
         key = 'stringized-location:%r' % src
+        if run.outcome == 'unsupported' and ' on UNINIT' in str(run.detail):
+            r.instance(False, key, 'scan.c', 'a location field is used before it is written: %s' % run.detail); continue
         if run.outcome == 'unsupported': raise AnalysisBroken('%s: %s' % (key, run.detail))
         if run.outcome != 'return':
             r.instance(False, key, 'pp.c:expandfunc', 'valid input rejected: %s %s' % (run.outcome, run.detail)); continue
